@@ -27,6 +27,24 @@ Theorem C10_cmd_decode_isolated : forall r up (data : slice) (h h' : heap) it e,
 Proof. exact cmd_decode_isolated. Qed.
 Print Assumptions C10_cmd_decode_isolated.
 
+(* ... and for the exported decoders of the frame parts called directly (encoding.BinaryUnmarshaler:
+   "UnmarshalBinary must copy the data if it wishes to retain the data after returning"):
+   FHDR, MACPayload, DataPayload, ProprietaryMACCommandPayload *)
+Theorem C10_part_decoders_isolated : forall (data : slice) (h : heap),
+  (forall h' x, h_fhdr_unmarshal data h = (h', Ok x) ->
+     forall b, b < length h -> forall l : list N, view_fhdr (upd h' b l) x = view_fhdr h' x) /\
+  (forall h' m, h_mac_unmarshal data h = (h', Ok m) ->
+     forall b, b < length h -> forall l : list N, view_mac (upd h' b l) m = view_mac h' m) /\
+  (forall h' s, h_data_unmarshal data h = (h', Ok s) ->
+     forall b, b < length h -> forall l : list N, bytes_of (upd h' b l) s = bytes_of h' s) /\
+  (forall h' p, h_prop_unmarshal data h = (h', Ok p) ->
+     forall b, b < length h -> forall l : list N, view_macpl (upd h' b l) p = view_macpl h' p) /\
+  old_unchanged h (fst (h_fhdr_unmarshal data h)) /\
+  old_unchanged h (fst (h_mac_unmarshal data h)) /\
+  old_unchanged h (fst (h_prop_unmarshal data h)).
+Proof. exact part_decoders_isolated. Qed.
+Print Assumptions C10_part_decoders_isolated.
+
 (* Decoders never write to memory that existed before the call, on every outcome (success, error,
    panic): frame decoder, MAC command decoder, command-stream decoder, DataPayload (serves C09). *)
 Theorem C10_decoders_readonly : forall (data : slice) (h : heap),
